@@ -85,7 +85,8 @@ def run(ctx):
         ctx.count('net:' + name)
         if wmin_model < -1e-12 * scale:
             ctx.disagree('exact model contradicts lowering_monotone?! min eig %g' % wmin_model, rep)
-        if np.abs(D1 - Dm1).max() > tol or np.abs(D0 - Dm0).max() > tol:
+        # cross-check only (exactness is C02's property, with its own direction-resolved error bound): ten times the conditioning allowance
+        if np.abs(D1 - Dm1).max() > 10 * tol or np.abs(D0 - Dm0).max() > 10 * tol:
             ctx.disagree('implementation differs from exact model (see C02)', dict(rep, D_impl=D1.tolist(), D_model=Dm1.tolist()))
         if wmin < -tol:
             ctx.violation('interstitial-decreases:%s' % name,
